@@ -137,8 +137,32 @@ def forked(fn, timeout=120):
         return ["child-failed", f"unreadable result: {e}"]
 
 
+def virtualise_locks():
+    """Locks the library created with the real threading module (class-level or module-level locks of modules that vsched.install
+    does not substitute) become scheduler-controlled locks: a thread stopped by the scheduler while it holds a real lock would
+    block the next thread for real and wedge the harness.  Called in the forked child, before the execution."""
+    import sys as _sys
+    from . import vsched as vs
+    n = 0
+    for name, mod in list(_sys.modules.items()):
+        f = getattr(mod, "__file__", None) or ""
+        if "/bromelia/" not in f or not name.startswith("bromelia"):
+            continue
+        holders = [mod] + [v for v in vars(mod).values() if isinstance(v, type) and getattr(v, "__module__", None) == name]
+        for h in holders:
+            for attr, val in list(vars(h).items()):
+                if type(val).__name__ in ("lock", "RLock"):
+                    try:
+                        setattr(h, attr, vs.VLock())
+                        n += 1
+                    except (AttributeError, TypeError):
+                        pass
+    return n
+
+
 def _one_preemption(k, job_a, job_b, files, opcode):
     from . import vsched as vs
+    virtualise_locks()
     s = vs.new_sched(k, max_steps=80000)
     suffixes = tuple(files)
     if opcode:
@@ -176,7 +200,7 @@ def _one_preemption(k, job_a, job_b, files, opcode):
     return {"results": results, "out": out, "finished_early": finished_early}
 
 
-def purity_sweep(pairs, files, kmax=300, opcode=False, stride=1):
+def purity_sweep(pairs, files, kmax=300, opcode=False, stride=1, judge=None):
     """pairs: list of (description, job_a, job_b): zero-argument callables returning a value with a faithful repr().
     For each pair: the sequential results (A then B, in a fresh child) are the reference; then, for k = 0, stride, 2 stride, ...,
     A is stopped after k line (bytecode) steps inside the named files, B runs a complete call, A resumes - each execution in a
@@ -195,7 +219,13 @@ def purity_sweep(pairs, files, kmax=300, opcode=False, stride=1):
             if isinstance(r, list) and r and r[0] == "child-failed":
                 problems.append((desc, k, r[1]))
                 break
-            if r["out"] != "alldone" or r["results"] != ref:
+            if judge is not None:
+                # results that are not a function of the arguments (generated identifiers): a verdict on both results together
+                text = judge(r["results"][0], r["results"][1]) if r["out"] == "alldone" else r["out"]
+                if text:
+                    problems.append((desc, k, text))
+                    break
+            elif r["out"] != "alldone" or r["results"] != ref:
                 who = "the interrupted call" if r["results"][0] != ref[0] else "the call that ran in between"
                 problems.append((desc, k, f"{who} gives {r['results'][0 if r['results'][0] != ref[0] else 1]} instead of "
                                           f"{ref[0 if r['results'][0] != ref[0] else 1]} ({r['out']})"))
